@@ -753,7 +753,7 @@ def item_c01_freq_axes(repo, out):
     out.append('Definition gen_v3_channel_width %s (bandwidth : A) (num_chans : Z) : A := %s.' % (OPS, cw_code3))
     out.append('Definition gen_v3_default_centre : Z := %s.' % coq_Z(dflt_centre))
     out.append('(* 1 rx_table.get(band) 2 bandwidth workaround 3 Ku / fake UHF 4 l0 center_freq 5 channel_width 6 channel-count\n'
-               '   fallback 7 centre_freq parameter 8 default centre 9 num_chans 10 SpectralWindow(**spw_params) *)')
+               '   fallback 7 centre_freq parameter 8 default centre 9 num_chans 10 the SpectralWindow call *)')
     out.append('Definition gen_v3_spw_prog : list Z := [%s].' % '; '.join(coq_Z(c) for c in prog))
 
 
